@@ -2674,7 +2674,7 @@ def parse_value(value):
   """Parse and return a single Gin value."""
   if not isinstance(value, str):
     raise ValueError('value ({}) should be a string type.'.format(value))
-  return config_parser.ConfigParser(value, ParserDelegate()).parse_value()
+  return config_parser.ConfigParser(value, ParserDelegate()).parse_single_value()
 
 
 def config_is_locked():
